@@ -9,9 +9,12 @@ use vharness::driver::{setup_world, step, tmp_root};
 
 fn run_case(dir: &str, setup: &Value, case: &Value, bid: usize) -> Vec<String> {
 	let mut out = vec![];
+	let prefix = case["prefix"].as_array().cloned().unwrap_or_default();
+	let (setup, skip) = vharness::driver::own_setup(setup, &prefix);
+	let setup = &setup;
 	let mut w = setup_world(dir, setup);
 	out.push(json!({"ev": "reset", "b": bid, "setup": setup, "res": "ok", "obs": w.obs()}).to_string());
-	for e in case["prefix"].as_array().cloned().unwrap_or_default() {
+	for e in prefix.into_iter().skip(skip) {
 		if e["ev"] == "cancel" {
 			let wn = e["w"].as_str().unwrap_or("w1").to_string();
 			let mut r = w.refresh(&wn, 1);
